@@ -1,7 +1,8 @@
 import Verif.Driver.Align
+import Verif.Driver.SoundClass
 open Verif.Driver
 
-def handlers : List (List (List String) → Option String) := [handleAlign]
+def handlers : List (List (List String) → Option String) := [handleAlign, handleSC]
 
 def dispatch (line : String) : String :=
   let fs := fields line
